@@ -1,16 +1,17 @@
 #!/usr/bin/env python3
-"""Regenerates the seed tables of DESIGN.md section 12 (rounds 2..8) from
+"""Regenerates the seed tables of DESIGN.md section 12 (rounds 2..9) from
 seeded/*/meta.json and final.json: replaces the table that follows each
 '### 12.N ' header (or a ROUND<N>TABLE placeholder)."""
 import os, re, subprocess, sys
 V = os.path.dirname(os.path.abspath(__file__))
 SPECIAL = {  # seeds deliberately left unreported by their target check (see the round's text)
     "C05-8": ("missed (and left so: not a violation of C05)", "not reported by C05 (outside its statement, see above); reported by C06"),
+    "C11-15": ("missed (and left so: not a violation of C11)", "not reported (nil and empty map hold the same pairs, see above)"),
     "C08-15": ("missed (and left so: not a violation of C08)", "not reported by C08 (outside its statement, see above); reported by C18"),
 }
 p = os.path.join(V, "DESIGN.md")
 s = open(p).read()
-for rnd in range(2, 9):
+for rnd in range(2, 10):
     t = subprocess.run([sys.executable, os.path.join(V, "seed_table.py"), str(rnd)], stdout=subprocess.PIPE, text=True).stdout.rstrip("\n")
     rows = []
     for l in t.split("\n"):
